@@ -282,14 +282,20 @@ class Runner:
             return "inconclusive", "CBMC error / out of memory"
         real = []
         for (name, status, descr, loc) in r["failed"]:
-            if ".unwind." in name or "unwinding assertion" in descr:
-                return "inconclusive", f"unwinding bound too small: {name}"
+            if status == "FAILURE" and (".unwind." in name or "unwinding assertion" in descr):
+                return "inconclusive", f"unwinding bound too small: {name[:200]} @ {loc[-120:]}"
+        for (name, status, descr, loc) in r["failed"]:
+            if status != "FAILURE":
+                continue
             if "VERIF-MODEL" in descr:
                 return "inconclusive", f"outside the schedule model: {descr}"
             if "not currently supported by Kani" in descr or ".unsupported_construct." in name:
                 return "inconclusive", f"unsupported construct reached: {descr[:120]}"
             real.append((name, status, descr, loc))
         if not real:
+            und = [x for x in r["failed"] if x[1] != "FAILURE"]
+            if und:
+                return "inconclusive", f"undetermined checks: {und[0][0][:100]}: {und[0][2][:120]}"
             if unsat and not r["failed"]:
                 return "vacuous", "unreachable witness"
             return "inconclusive", "FAILED without an identifiable failing check"
